@@ -413,6 +413,62 @@ let api_line line =
                                         (List.filter (fun x -> x <> "") (split_on ' ' probes))))
   | _ -> failwith "api: bad line"
 
+(* ---------------- parser model (T1) ---------------- *)
+
+let rec tree_tokens (e : expr) (out : string list ref) : unit =
+  let push s = out := s :: !out in
+  match e with
+  | Empty -> push "E"
+  | Any nl -> push (if nl then "Y1" else "Y0")
+  | Assertion a -> push (Printf.sprintf "S%d" (code_of_assertion a))
+  | Literal (v, ci) -> push (Printf.sprintf "L%s:%d" (hex_of_bytes v) (if ci then 1 else 0))
+  | Concat es -> push (Printf.sprintf "C%d" (List.length es)); List.iter (fun x -> tree_tokens x out) es
+  | Alt es -> push (Printf.sprintf "O%d" (List.length es)); List.iter (fun x -> tree_tokens x out) es
+  | Group c -> push "G"; tree_tokens c out
+  | LookAround (c, la) ->
+      push (Printf.sprintf "K%d" (match la with LookAhead -> 0 | LookAheadNeg -> 1 | LookBehind -> 2 | LookBehindNeg -> 3));
+      tree_tokens c out
+  | Repeat (c, lo, hi, gr) ->
+      push (Printf.sprintf "R%s:%s:%d" (string_of_n lo) (string_of_n hi) (if gr then 1 else 0)); tree_tokens c out
+  | Delegate (inner, size, ci, k) ->
+      push (Printf.sprintf "D%s:%s:%d:%s" (hex_of_bytes inner) (string_of_n size) (if ci then 1 else 0)
+              (match k with DNlStarEnd -> "Z" | DClass _ -> "c"))
+  | Backref g -> push ("B" ^ string_of_n g)
+  | AtomicGroup c -> push "T"; tree_tokens c out
+  | KeepOut -> push "KO"
+  | ContinueFromPreviousMatchEnd -> push "CG"
+  | BackrefExistsCondition g -> push ("X" ^ string_of_n g)
+  | Conditional (c, y, n) -> push "Q"; tree_tokens c out; tree_tokens y out; tree_tokens n out
+  | SubroutineCall g -> push ("U" ^ string_of_n g)
+
+let perr_string = function
+  | PGeneral -> "GeneralParseError" | PUnclosedOpenParen -> "UnclosedOpenParen" | PInvalidRepeat -> "InvalidRepeat"
+  | PRecursionExceeded -> "RecursionExceeded" | PTrailingBackslash -> "TrailingBackslash" | PInvalidEscape -> "InvalidEscape"
+  | PUnclosedUnicodeName -> "UnclosedUnicodeName" | PInvalidHex -> "InvalidHex" | PInvalidCodepointValue -> "InvalidCodepointValue"
+  | PInvalidClass -> "InvalidClass" | PUnknownFlag -> "UnknownFlag" | PNonUnicodeUnsupported -> "NonUnicodeUnsupported"
+  | PInvalidBackref -> "InvalidBackref" | PTargetNotRepeatable -> "TargetNotRepeatable" | PInvalidGroupName -> "InvalidGroupName"
+  | PInvalidGroupNameBackref -> "InvalidGroupNameBackref"
+
+let parse_line line =
+  let re = bytes_of_hex (String.trim line) in
+  match Model.parse re with
+  | POk (e, st) ->
+      let out = ref [] in tree_tokens e out;
+      let bs = List.sort_uniq compare (List.map (fun g -> string_of_n g) st.p_backrefs) in
+      (* latest binding of each name wins (HashMap::insert) *)
+      let seen = Hashtbl.create 8 in
+      let names = List.filter_map (fun (nm, i) ->
+        let h = hex_of_bytes nm in
+        if Hashtbl.mem seen h then None else (Hashtbl.add seen h (); Some (int_of_nat i, h))) st.p_named in
+      let names = List.sort compare names in
+      Printf.sprintf "tree=%s\tbs=%s\tnames=%s" (String.concat " " (List.rev !out))
+        (if bs = [] then "-" else String.concat "," bs)
+        (if names = [] then "-" else String.concat "," (List.map (fun (i, h) -> Printf.sprintf "%d:%s" i h) names))
+  | PErr (pos, e) -> Printf.sprintf "new=err:Parse:%s:%d" (perr_string e) (int_of_nat pos)
+  | PNamedBackrefOnly -> "new=err:Compile:NamedBackrefOnly"
+  | PPanic -> "PANIC"
+  | PFuel -> "FUEL"
+
 (* ---------------- expand / escape / oracle ---------------- *)
 
 let xerr_string = function
@@ -457,6 +513,7 @@ let () =
     | "stateref" -> run_state_line true
     | "prog" -> prog_line
     | "run" -> run_line
+    | "parse" -> parse_line
     | "sem" -> sem_line
     | "lens" -> lens_line
     | "api" -> api_line
